@@ -431,4 +431,5 @@ func probeFacts(sb *strings.Builder) {
 	exportedMethodsFacts(sb)
 	setterFacts(sb)
 	queuedFacts(sb)
+	lateErrorFacts(sb)
 }
